@@ -189,5 +189,16 @@ void vf_same_scalars(const char *label, void *a, void *b, const char *type_name)
 
 #ifdef VF_ENTRY
 void VF_ENTRY(void);
-int main(void) { VF_ENTRY(); printf("DONE\n"); return 0; }
+int main(void)
+{
+#if defined(VF_WATCH_TABLE) && defined(VF_WATCH_AT_ENTRY)
+	vf_watch_shared_state(1);          /* derived C06 obligations watch from the entry on, as engine B does */
+#endif
+	VF_ENTRY();
+#if defined(VF_WATCH_TABLE)
+	vf_watch_shared_state(0);
+#endif
+	printf("DONE\n");
+	return 0;
+}
 #endif
